@@ -544,7 +544,14 @@ func opEncryptKey(pl *pool, in *input, variant int, key []byte) (uint64, error) 
 	if in.key != nil {
 		return 0, inapplicable("already encrypted")
 	}
-	f, err := decodeR(in)
+	var f *mp4.File
+	var err error
+	if len(in.data) > 1<<20 {
+		// a bytes.Buffer over the shared input (read-only use of the slice): another concrete reader type
+		f, err = mp4.DecodeFile(bytes.NewBuffer(in.data))
+	} else {
+		f, err = decodeR(in)
+	}
 	if err != nil {
 		return 0, err
 	}
